@@ -38,7 +38,7 @@ PLAN["C12"] = dict(
 )
 
 PLAN["C15"] = dict(
-    rule="enumeration: all ranges with bounds in 0..=24 (0..=40 thorough), finite and infinite, all ordered pairs, scale factors 0..=8; generation: tapes decoded into two ranges (small, medium, huge and near-u32::MAX bounds; finite, infinite, narrow) and three scale factors. "
+    rule="enumeration: all ranges with bounds in 0..=24 (0..=40 thorough), finite and infinite, all ordered pairs, scale factors 0..=8; a critical-gap family r = [a,a+q], s = [c,c+1] / [c,c+2] with a = c*q+1+delta, delta in -2..=2, at every magnitude 2^4..2^31; generation: tapes decoded into two ranges (small, medium, huge and near-u32::MAX bounds; finite, infinite, narrow) and three scale factors. "
          "Non-trivial = neither range is a point and the first is finite, so right_mul_is_exact is decided by the gap inequality rather than a special case; distinct = digest of (r, s, factors) / by construction.",
     oracle="ranges read as sets of naturals over u128: contains/includes = membership/inclusion; add = set of sums; scale(k) = k-fold sum; shift = predecessors with 0 kept; mul must contain every product (all products in the small scope, corner products otherwise); right_mul_is_exact(r,s) <=> the union over y in s of [y*lo, y*hi], computed as an explicit union of intervals, equals the observed r.mul(s); a panic is accepted only when its message says arithmetic overflow and a natural intermediate exceeds u32",
     assumptions=COMMON_ASSUMPTIONS + ["a finite LoopRange's end is observed through contains() (galloping search), its start through start()", "when more than 4096 blocks would be needed the union is shown not to be an interval by its first gap (never happens in the enumerated scope)"],
@@ -48,7 +48,7 @@ PLAN["C15"] = dict(
 
 PLAN["C06"] = dict(
     rule="enumeration: all triples (subject, pattern, replacement) of strings over {a,b} (subject length <= 4, others <= 3; thorough 6/4) and over {a,b,c} (3/2), each with every index in [-2,|s|+2] u {i32::MIN, MIN+1, MAX-1, MAX} and 8 length values; "
-         "a near-unary family with closed-form answers and an aggregate-collision family (windows and patterns of equal length that share their ends, their multiset of characters, the xor of their characters, or whose position-wise differences sum to 2^8 / 2^16 / 2^32, up to 65538 characters); generation: tapes decoded into a subject of length 0-12 over {a,b,c,0,0x2FFFF}, a pattern that is a substring / a repetition aa.. / independent, a replacement that may contain the pattern, 3 index and 2 length integers biased to -2..2, |s|-2..|s|+2 and i32 extremes. "
+         "a near-unary family with closed-form answers, a size-budget family (|s| up to 10^6, short pattern planted 0-2 times, replacement of 3000-131072 characters: |s|/|p|*|r| exceeds 2^31-1 while the result does not) and an aggregate-collision family (windows and patterns of equal length that share their ends, their multiset of characters, the xor of their characters, or whose position-wise differences sum to 2^8 / 2^16 / 2^32, up to 65538 characters); generation: tapes decoded into a subject of length 0-12 over {a,b,c,0,0x2FFFF}, a pattern that is a substring / a repetition aa.. / independent, a replacement that may contain the pattern, 3 index and 2 length integers biased to -2..2, |s|-2..|s|+2 and i32 extremes. "
          "Non-trivial = non-empty pattern occurring in the subject, or an index within 1 of 0 or of |s|; distinct = digest of the decoded tuple / by construction.",
     oracle="R7: SMT-LIB 2.6 definitions written on Vec<u32> with i64 arithmetic (indexof = least n >= i with an occurrence at n for 0 <= i <= |s|; replace = leftmost occurrence, empty pattern at 0; replace_all = left-to-right non-overlapping, identity for the empty pattern); exact equality for all ten functions",
     assumptions=COMMON_ASSUMPTIONS,
@@ -192,7 +192,7 @@ PLAN["C07"] = dict(
 )
 
 PLAN["C10"] = dict(
-    rule="generation: regex programs of 1-8 instructions over the landmarks a..c (so matches are frequent; nullable, empty, complemented and semantically empty patterns arise from the same constructors), 1-3 subject strings of length 0-8 (80% landmark letters, else other atom representatives), a replacement of length 0-3 that may itself match; executed through the re_* / str_replace_re(_all) wrappers in a fresh thread, each call twice (cold and warm derivative cache). "
+    rule="generation: regex programs of 1-8 instructions over the landmarks a..c (so matches are frequent; nullable, empty, complemented and semantically empty patterns arise from the same constructors; a sixth of the patterns are the union of a pattern pair of C16's generator, rigid ranges around Sigma* sections against a near-miss instance), 1-3 subject strings of length 0-8 (80% landmark letters, else other atom representatives), a replacement of length 0-3 that may itself match; executed through the re_* / str_replace_re(_all) wrappers in a fresh thread, each call twice (cold and warm derivative cache). "
          "Non-trivial = a match exists and (the pattern is nullable, or >= 2 match lengths are possible at the chosen start, or >= 2 replacements are made); distinct = digest of (program, subjects, replacement).",
     oracle="membership matrix M[i][j] of the subject from the DP matcher (R3); replace_re: least i with some j >= i, M[i][j], then least such j (j = i allowed): s[..i].t.s[j..], or s if none; replace_re_all: from p, least i >= p with some j > i, least such j, emit s[p..i].t, continue at j, copy the tail; exact equality of the results",
     assumptions=COMMON_ASSUMPTIONS + ["loop-range arithmetic overflow (documented panic) is a counted discard"],
